@@ -66,6 +66,15 @@ func init() {
 		add(map[string]interface{}{"in": []int{4, 1}, "k": []int{2, 3}, "pads": []int{2, 0, 0, 0}})
 		add(map[string]interface{}{"in": []int{1, 4}, "k": []int{3, 2}, "auto_pad": "SAME_UPPER"})
 		add(map[string]interface{}{"in": []int{1, 4}, "k": []int{3, 2}, "auto_pad": "SAME_LOWER"})
+		// ... combined with strides and dilations (the first window already reaches into the end padding)
+		add(map[string]interface{}{"in": []int{2, 5}, "k": []int{3, 2}, "pads": []int{0, 0, 1, 0}, "strides": []int{2, 1}})
+		add(map[string]interface{}{"in": []int{2, 5}, "k": []int{3, 2}, "pads": []int{0, 0, 2, 1}, "strides": []int{3, 2}, "bias": true})
+		add(map[string]interface{}{"in": []int{4, 2}, "k": []int{2, 2}, "pads": []int{0, 0, 0, 1}, "strides": []int{1, 2}, "dilations": []int{1, 2}})
+		add(map[string]interface{}{"in": []int{3, 4}, "k": []int{2, 3}, "pads": []int{0, 0, 0, 2}, "strides": []int{2, 3}, "dilations": []int{1, 2}, "M": 2})
+		add(map[string]interface{}{"in": []int{1, 4}, "k": []int{2, 2}, "auto_pad": "SAME_UPPER", "strides": []int{2, 1}})
+		add(map[string]interface{}{"in": []int{4, 1}, "k": []int{2, 2}, "auto_pad": "SAME_UPPER", "strides": []int{2, 2}, "bias": true})
+		add(map[string]interface{}{"nd": 1, "in": []int{2}, "k": []int{3}, "pads": []int{0, 1}, "strides": []int{2}})
+		add(map[string]interface{}{"nd": 1, "in": []int{3}, "k": []int{2}, "pads": []int{0, 2}, "strides": []int{3}, "dilations": []int{3}})
 		// batches of 5 and 6 samples
 		add(map[string]interface{}{"in": []int{2, 3}, "k": []int{2, 2}, "N": 5, "bias": true})
 		add(map[string]interface{}{"nd": 1, "in": []int{3}, "k": []int{2}, "N": 6, "M": 2, "bias": true})
